@@ -170,7 +170,18 @@ const (
 )
 
 // verifNextOutcome reads the next scripted backend behaviour.
-func verifNextOutcome() (kind int, status int) {
+func verifNextOutcome(req *http.Request) (kind int, status int) {
+	if req != nil {
+		// a request may carry its own scripted outcome (concurrent harnesses: no shared script)
+		switch req.Header.Get("X-Verif-Outcome") {
+		case "200":
+			verifSetLast(verifOutStatus, 200)
+			return verifOutStatus, 200
+		case "503":
+			verifSetLast(verifOutStatus, 503)
+			return verifOutStatus, 503
+		}
+	}
 	if verifForceOK {
 		verifSetLast(verifOutStatus, 200)
 		return verifOutStatus, 200
@@ -207,6 +218,14 @@ var (
 func verifSetLast(kind, status int) {
 	verifMu.Lock()
 	verifLastKind, verifLastStatus = kind, status
+	verifMu.Unlock()
+}
+
+var verifUpgradeDeadline bool
+
+func verifSetUpgradeDeadline(has bool) {
+	verifMu.Lock()
+	verifUpgradeDeadline = has
 	verifMu.Unlock()
 }
 
